@@ -157,17 +157,23 @@ func genSession14(c *Chooser) Session {
 	if iv.format == "patch" && c.Chance(3, 4) {
 		g.NumLikeKey = false
 	}
+	if iv.yaml && c.Chance(1, 12) {
+		g.YAMLFloats = true
+	}
 	docs := lineage(c, g, 2)
 	a, b := docs[0], docs[1]
 	if c.Chance(1, 10) {
 		b = a.clone() // equal inputs: exit status 0
+	}
+	if iv.precision != 0 && c.Chance(2, 3) {
+		b = perturb(c, a, iv.precision) // differences around the tolerance
 	}
 	if c.Chance(1, 40) {
 		a = nil // the empty document
 	} else if c.Chance(1, 40) {
 		b = nil
 	}
-	s := Session{Sector: []int{8, 64, 512, 4096}[c.Int(4)]}
+	s := Session{Sector: []int{8, 64, 512, 4096}[c.Int(4)], FileChunk: []int{0, 0, 0, 1, 7, 512}[c.Int(6)]}
 	an, bn := "a.json", "b.json"
 	if iv.yaml {
 		an, bn = "a.yaml", "b.yaml"
@@ -177,7 +183,7 @@ func genSession14(c *Chooser) Session {
 	useStdin := c.Chance(2, 5)
 	mkStdin := func(name string) *StdinSpec {
 		plan, ewd := genPlan(c)
-		return &StdinSpec{From: "file:" + name, Plan: plan, EOFWithData: ewd}
+		return &StdinSpec{From: "file:" + name, Plan: plan, EOFWithData: ewd, Redirect: c.Chance(1, 4)}
 	}
 	diffProc := func(out string, color bool) ProcSpec {
 		fl := iv.flags()
@@ -196,7 +202,7 @@ func genSession14(c *Chooser) Session {
 		}
 		return p
 	}
-	switch c.Pick(25, 40, 15, 4, 12, 4) {
+	switch c.Pick(25, 40, 15, 4, 12, 4, 6) {
 	case 0: // S1 diff
 		s.Kind = "diff"
 		out := ""
@@ -234,6 +240,9 @@ func genSession14(c *Chooser) Session {
 		var keys []string
 		if arr == "setkeys" {
 			arr, keys = "set", []string{"id"}
+			if iv.v1 {
+				arr = "list" // v1: -setkeys alone leaves arrays ordered
+			}
 		}
 		s.RT = &RoundTrip{Target: bn, Source: an, YAML: iv.yaml, Arrays: arr, Eps: iv.precision, Merge: iv.format == "merge", Keys: keys}
 	case 2: // S3 translate
@@ -302,6 +311,53 @@ func genSession14(c *Chooser) Session {
 		fl := append(iv.flags(), flagSpec{name: "p"})
 		p0 := diffProc("p.diff", false)
 		s.Procs = []ProcSpec{p0, {Bin: iv.bin, Argv: renderArgv(c, fl, []string{"p.diff", "c.json"})}}
+	case 6: // S7 pipe: the stdout of one process is the stdin of the next
+		s.Kind = "pipe"
+		if c.Chance(1, 2) && !iv.yaml {
+			iv2 := iv
+			iv2.precision = 0
+			if iv2.format == "merge" || c.Chance(1, 2) {
+				iv2.format = "jd"
+			}
+			if iv2.format == "patch" {
+				iv2.arrays = "list"
+			}
+			t := map[string][]string{"jd": {"jd2patch", "jd2merge"}, "patch": {"patch2jd"}}[iv2.format]
+			fl := []flagSpec{{"t", t[c.Int(len(t))], true, false}}
+			if iv.v1 {
+				fl = append(fl, flagSpec{"v2", "false", true, true})
+			}
+			plan, ewd := genPlan(c)
+			s.Procs = []ProcSpec{
+				{Bin: iv.bin, Argv: renderArgv(c, iv2.flags(), []string{an, bn})},
+				{Bin: iv.bin, Argv: renderArgv(c, fl, nil), Stdin: &StdinSpec{From: "prev", Plan: plan, EOFWithData: ewd}},
+			}
+		} else {
+			// jd -t yaml2json doc | jd other.json
+			y := docText(c, b, true)
+			s.Files = []File{{"a.json", Blob(docText(c, a, false))}, {"doc.yaml", Blob(y)}}
+			plan, ewd := genPlan(c)
+			var fl []flagSpec
+			switch iv.arrays {
+			case "set":
+				fl = append(fl, flagSpec{name: "set"})
+			case "mset":
+				fl = append(fl, flagSpec{name: "mset"})
+			}
+			s.Procs = []ProcSpec{
+				{Bin: iv.bin, Argv: []string{"-t", "yaml2json", "doc.yaml"}},
+				{Bin: iv.bin, Argv: renderArgv(c, fl, []string{"a.json"}), Stdin: &StdinSpec{From: "prev", Plan: plan, EOFWithData: ewd}},
+			}
+		}
+	}
+	// a stale earlier result may already sit where -o is going to write
+	if c.Chance(1, 3) {
+		stale := "@ [\"old\"]\n- \"stale output from an earlier run\"\n+ \"" + strings.Repeat("x", c.Range(0, 600)) + "\"\n"
+		for _, n := range []string{"out", "p.diff", "patched"} {
+			if c.Chance(2, 3) {
+				s.Files = append(s.Files, File{n, Blob(stale)})
+			}
+		}
 	}
 	return s
 }
@@ -310,7 +366,14 @@ func genMisuse(c *Chooser, iv invocation, s *Session, an, bn string) ProcSpec {
 	fl := iv.flags()
 	pos := []string{an, bn}
 	p := ProcSpec{Bin: iv.bin}
-	switch c.Int(15) {
+	switch c.Int(16) {
+	case 15: // both inputs are the same unparsable bytes
+		d := s.Files[0].Data
+		if len(d) > 1 {
+			d = d[:c.Range(1, len(d)-1)]
+		}
+		bad := append(append(Blob(nil), d...), []byte("}{")...)
+		s.Files[0].Data, s.Files[1].Data = bad, append(Blob(nil), bad...)
 	case 0:
 		pos = []string{"missing.json", bn}
 	case 1:
